@@ -79,6 +79,7 @@ def run_real(prog):
                 st[-1], st[-2] = st[-2], st[-1]; sem[-1], sem[-2] = sem[-2], sem[-1]
             elif op in ('add', 'mul', 'sub', 'div', 'mkr', 'eq'):
                 b, a = st.pop(), st.pop(); sb, sa = sem.pop(), sem.pop()
+                before_ab = (render(a), render(b))
                 if op == 'add': push(a + b, S(lambda x, y: x + y, sa, sb))
                 elif op == 'mul': push(a * b, S(lambda x, y: x * y, sa, sb))
                 elif op == 'sub': push(a - b, S(lambda x, y: x - y, sa, sb))
@@ -92,6 +93,9 @@ def run_real(prog):
                     if r and not (isinstance(sa, str) or isinstance(sb, str)) and not equal(sa, sb):
                         fails.append(('eq-equates-different-functions', render(a), render(b)))
                     push(bool(r), None)
+                # an operator must not change its operands (they may be shared: `dup`, or terms of other polynomials)
+                if (render(a), render(b)) != before_ab:
+                    fails.append(('operand-changed', f'{before_ab[0]} {op} {before_ab[1]}', f'afterwards: {render(a)} , {render(b)}'))
             elif op == 'neg':
                 a = st.pop(); sa = sem.pop(); push(-a, S(lambda x: -x, sa))
             elif op == 'rdiv':
